@@ -69,6 +69,59 @@ impl<K: Eq, V> HashMap<K, V> {
     pub fn into_values(self) -> impl Iterator<Item = V> {
         self.items.into_iter().map(|(_, v)| v)
     }
+    pub fn into_keys(self) -> impl Iterator<Item = K> {
+        self.items.into_iter().map(|(k, _)| k)
+    }
+    pub fn is_empty(&self) -> bool {
+        self.items.is_empty()
+    }
+    pub fn clear(&mut self) {
+        self.items.clear()
+    }
+    pub fn contains_key<Q: ?Sized + Eq>(&self, k: &Q) -> bool
+    where
+        K: Borrow<Q>,
+    {
+        self.pos(k).is_some()
+    }
+    pub fn remove<Q: ?Sized + Eq>(&mut self, k: &Q) -> Option<V>
+    where
+        K: Borrow<Q>,
+    {
+        match self.pos(k) {
+            Some(i) => Some(self.items.remove(i).1),
+            None => None,
+        }
+    }
+    pub fn iter(&self) -> impl Iterator<Item = (&K, &V)> {
+        self.items.iter().map(|(k, v)| (k, v))
+    }
+    pub fn iter_mut(&mut self) -> impl Iterator<Item = (&K, &mut V)> {
+        self.items.iter_mut().map(|(k, v)| (&*k, v))
+    }
+    pub fn keys(&self) -> impl Iterator<Item = &K> {
+        self.items.iter().map(|(k, _)| k)
+    }
+    pub fn values(&self) -> impl Iterator<Item = &V> {
+        self.items.iter().map(|(_, v)| v)
+    }
+    pub fn values_mut(&mut self) -> impl Iterator<Item = &mut V> {
+        self.items.iter_mut().map(|(_, v)| v)
+    }
+}
+
+impl<K: Eq, V> Default for HashMap<K, V> {
+    fn default() -> Self {
+        HashMap::new()
+    }
+}
+
+impl<K: Eq, V> Extend<(K, V)> for HashMap<K, V> {
+    fn extend<T: IntoIterator<Item = (K, V)>>(&mut self, iter: T) {
+        for (k, v) in iter {
+            self.insert(k, v);
+        }
+    }
 }
 
 impl<K: Eq, V> IntoIterator for HashMap<K, V> {
@@ -107,12 +160,41 @@ pub mod hash_map {
         pub fn get(&self) -> &V {
             &self.map.items[self.idx].1
         }
+        pub fn get_mut(&mut self) -> &mut V {
+            &mut self.map.items[self.idx].1
+        }
+        pub fn into_mut(self) -> &'a mut V {
+            &mut self.map.items[self.idx].1
+        }
+        pub fn key(&self) -> &K {
+            &self.map.items[self.idx].0
+        }
+        pub fn insert(&mut self, v: V) -> V {
+            core::mem::replace(&mut self.map.items[self.idx].1, v)
+        }
     }
     impl<'a, K, V> VacantEntry<'a, K, V> {
         pub fn insert(self, v: V) -> &'a mut V {
             self.map.items.push((self.key, v));
             let n = self.map.items.len();
             &mut self.map.items[n - 1].1
+        }
+        pub fn key(&self) -> &K {
+            &self.key
+        }
+    }
+    impl<'a, K, V> Entry<'a, K, V> {
+        pub fn or_insert(self, v: V) -> &'a mut V {
+            match self {
+                Entry::Occupied(e) => e.into_mut(),
+                Entry::Vacant(e) => e.insert(v),
+            }
+        }
+        pub fn or_insert_with<F: FnOnce() -> V>(self, f: F) -> &'a mut V {
+            match self {
+                Entry::Occupied(e) => e.into_mut(),
+                Entry::Vacant(e) => e.insert(f()),
+            }
         }
     }
 }
@@ -123,8 +205,69 @@ pub struct HashSet<T> {
 }
 
 impl<T: Eq> HashSet<T> {
+    pub fn new() -> Self {
+        HashSet { items: Vec::new() }
+    }
+    pub fn with_capacity(n: usize) -> Self {
+        HashSet { items: Vec::with_capacity(n) }
+    }
     pub fn len(&self) -> usize {
         self.items.len()
+    }
+    pub fn is_empty(&self) -> bool {
+        self.items.is_empty()
+    }
+    pub fn contains<Q: ?Sized + Eq>(&self, x: &Q) -> bool
+    where
+        T: Borrow<Q>,
+    {
+        let mut i = 0;
+        while i < self.items.len() {
+            if self.items[i].borrow() == x {
+                return true;
+            }
+            i += 1;
+        }
+        false
+    }
+    pub fn insert(&mut self, x: T) -> bool {
+        if self.contains(&x) {
+            false
+        } else {
+            self.items.push(x);
+            true
+        }
+    }
+    pub fn remove<Q: ?Sized + Eq>(&mut self, x: &Q) -> bool
+    where
+        T: Borrow<Q>,
+    {
+        let mut i = 0;
+        while i < self.items.len() {
+            if self.items[i].borrow() == x {
+                self.items.remove(i);
+                return true;
+            }
+            i += 1;
+        }
+        false
+    }
+    pub fn iter(&self) -> std::slice::Iter<'_, T> {
+        self.items.iter()
+    }
+}
+
+impl<T: Eq> Default for HashSet<T> {
+    fn default() -> Self {
+        HashSet::new()
+    }
+}
+
+impl<T: Eq> IntoIterator for HashSet<T> {
+    type Item = T;
+    type IntoIter = std::vec::IntoIter<T>;
+    fn into_iter(self) -> Self::IntoIter {
+        self.items.into_iter()
     }
 }
 
@@ -160,6 +303,76 @@ impl<K: Eq, V> IndexMap<K, V> {
     }
     pub fn len(&self) -> usize {
         self.items.len()
+    }
+    pub fn is_empty(&self) -> bool {
+        self.items.is_empty()
+    }
+    pub fn get_index_of<Q: ?Sized + Eq>(&self, k: &Q) -> Option<usize>
+    where
+        K: Borrow<Q>,
+    {
+        let mut i = 0;
+        while i < self.items.len() {
+            if self.items[i].0.borrow() == k {
+                return Some(i);
+            }
+            i += 1;
+        }
+        None
+    }
+    pub fn get<Q: ?Sized + Eq>(&self, k: &Q) -> Option<&V>
+    where
+        K: Borrow<Q>,
+    {
+        match self.get_index_of(k) {
+            Some(i) => Some(&self.items[i].1),
+            None => None,
+        }
+    }
+    pub fn get_mut<Q: ?Sized + Eq>(&mut self, k: &Q) -> Option<&mut V>
+    where
+        K: Borrow<Q>,
+    {
+        match self.get_index_of(k) {
+            Some(i) => Some(&mut self.items[i].1),
+            None => None,
+        }
+    }
+    pub fn get_full<Q: ?Sized + Eq>(&self, k: &Q) -> Option<(usize, &K, &V)>
+    where
+        K: Borrow<Q>,
+    {
+        match self.get_index_of(k) {
+            Some(i) => Some((i, &self.items[i].0, &self.items[i].1)),
+            None => None,
+        }
+    }
+    pub fn contains_key<Q: ?Sized + Eq>(&self, k: &Q) -> bool
+    where
+        K: Borrow<Q>,
+    {
+        self.get_index_of(k).is_some()
+    }
+    pub fn insert(&mut self, k: K, v: V) -> Option<V> {
+        match self.get_index_of(&k) {
+            Some(i) => Some(core::mem::replace(&mut self.items[i].1, v)),
+            None => {
+                self.items.push((k, v));
+                None
+            }
+        }
+    }
+    pub fn insert_full(&mut self, k: K, v: V) -> (usize, Option<V>) {
+        match self.get_index_of(&k) {
+            Some(i) => (i, Some(core::mem::replace(&mut self.items[i].1, v))),
+            None => {
+                self.items.push((k, v));
+                (self.items.len() - 1, None)
+            }
+        }
+    }
+    pub fn iter(&self) -> impl Iterator<Item = (&K, &V)> {
+        self.items.iter().map(|(k, v)| (k, v))
     }
     pub fn entry(&mut self, k: K) -> map::Entry<'_, K, V> {
         let mut i = 0;
@@ -199,12 +412,30 @@ pub mod map {
         pub fn into_mut(self) -> &'a mut V {
             &mut self.map.items[self.idx].1
         }
+        pub fn get(&self) -> &V {
+            &self.map.items[self.idx].1
+        }
+        pub fn get_mut(&mut self) -> &mut V {
+            &mut self.map.items[self.idx].1
+        }
+        pub fn index(&self) -> usize {
+            self.idx
+        }
+        pub fn key(&self) -> &K {
+            &self.map.items[self.idx].0
+        }
     }
     impl<'a, K, V> VacantEntry<'a, K, V> {
         pub fn insert(self, v: V) -> &'a mut V {
             self.map.items.push((self.key, v));
             let n = self.map.items.len();
             &mut self.map.items[n - 1].1
+        }
+        pub fn index(&self) -> usize {
+            self.map.items.len()
+        }
+        pub fn key(&self) -> &K {
+            &self.key
         }
     }
     pub struct IntoIter<K, V> {
